@@ -105,7 +105,7 @@ impl Prop for Unrelated {
         let w = if t.chance(1, 2) { 8 } else { 4 };
         let mut cfg = GenCfg::rich(w);
         cfg.max_mods = 5;
-        cfg.max_items = 3 + t.below(10);
+        cfg.max_items = 3 + t.below(10 * crate::driver::scale());
         let (p1, _, _) = gen_prog(t, cfg);
         let with_uses: Vec<usize> = (0..p1.mods.len()).filter(|i| !p1.mods[*i].uses.is_empty()).collect();
         let obs = if !with_uses.is_empty() && t.chance(3, 4) { with_uses[t.below(with_uses.len() as u64) as usize] } else { t.below(p1.mods.len() as u64) as usize };
